@@ -20,8 +20,56 @@ src += '\n$throwRuntimeError = msg => { throw new Error("GVCRT:" + msg); };\n';
 src += 'return function(name){ return eval(name); }; })()';
 const get = (new Function('require', 'return ' + src))(require);
 const spec = JSON.parse(fs.readFileSync(process.argv[3], 'utf8'));
+// arrays and slices: element objects carry an identity (the model's integer), arrays are kept by the model's array identity
+// so that aliased parameters are the same object.  Element types: a real struct type (kind 25), a real array-of-struct type
+// (kind 17), otherwise any type whose arrays are plain Arrays / typed arrays as the model says.
+const arrays = new Map(), arrayIdent = new Map(), ids = new Map();
+let nextId = 1000000000, nextArr = 1000000;
+let structT = null, arrT = null;
+function valueTypes() {
+  if (structT) return;
+  structT = get('$newType')(0, get('$kindStruct'), "gvc.S", true, "gvc", true, function(id_) { this.$val = this; if (arguments.length === 0) { this.id = 0; return; } this.id = id_; });
+  structT.init("gvc", [{prop: "id", name: "id", embedded: false, exported: false, typ: get('$Int'), tag: ""}]);
+  arrT = get('$arrayType')(structT, 1);
+}
+function elemType(kind, plain) { valueTypes(); return kind === 25 ? structT : kind === 17 ? arrT : (plain ? get('$emptyInterface') : get('$Float64')); }
+function mkElem(id, kind) {
+  if (kind !== 25 && kind !== 17) return id;
+  valueTypes();
+  const o = kind === 25 ? new structT.ptr(id) : [new structT.ptr(id)];
+  ids.set(o, id); return o;
+}
+function mkArr(a, kind) {
+  if (arrays.has(a.ident)) return arrays.get(a.ident);
+  const r = (a.plain || kind === 25 || kind === 17) ? a.v.map(x => mkElem(x, kind)) : Float64Array.from(a.v);
+  arrays.set(a.ident, r); arrayIdent.set(r, a.ident); return r;
+}
+function idOf(x) {
+  if (typeof x === 'number') return x;
+  if (x === undefined) return -1;
+  if (!ids.has(x)) ids.set(x, nextId++);
+  return ids.get(x);
+}
+function contentOf(x) {
+  if (x !== null && typeof x === 'object') { if (Array.isArray(x)) return x.length ? contentOf(x[0]) : null; if ('id' in x) return x.id; }
+  return null;
+}
+function encArr(x) {
+  let fresh = false;
+  if (!arrayIdent.has(x)) { arrayIdent.set(x, nextArr++); fresh = true; }
+  const l = Array.from(x);
+  return {t: 'arr', plain: Array.isArray(x), ident: arrayIdent.get(x), fresh: fresh, v: l.map(idOf), c: l.map(contentOf)};
+}
 function mk(a) {
   if (a === null) return undefined;
+  if (a.t === 'arrv') return mkArr(a, a.kind);
+  if (a.t === 'elemtype') { return (a.kind === 25 || a.kind === 17) ? elemType(a.kind, true) : {kind: a.kind}; }
+  if (a.t === 'slice') {
+    const ST = get('$sliceType')(elemType(a.kind, a.arr.plain));
+    ST.$gvckind = a.kind;
+    if (a.nil) return ST.nil;
+    const s = new ST(mkArr(a.arr, a.kind)); s.$offset = a.off; s.$length = a.len; s.$capacity = a.cap; return s;
+  }
   if (a.t === 'num') return a.v;
   if (a.t === 'bool') return a.v;
   if (a.t === 'str') return String.fromCharCode.apply(undefined, a.v);
@@ -36,7 +84,10 @@ function enc(v) {
   if (typeof v === 'number') return Number.isNaN(v) ? {t: 'nan'} : {t: 'num', v: v};
   if (typeof v === 'boolean') return {t: 'bool', v: v};
   if (typeof v === 'string') { const a = []; for (let i = 0; i < v.length; i++) a.push(v.charCodeAt(i)); return {t: 'str', v: a}; }
+  if ((Array.isArray(v) || ArrayBuffer.isView(v)) && (arrayIdent.has(v) || spec.arrays)) return encArr(v);
   if (Array.isArray(v) || ArrayBuffer.isView(v)) return {t: 'tuple', v: Array.from(v).map(enc)};
+  if (v !== null && typeof v === 'object' && '$array' in v && spec.arrays)
+    return {t: 'slice', arr: encArr(v.$array), off: v.$offset, len: v.$length, cap: v.$capacity, nil: v === v.constructor.nil, kind: v.constructor.$gvckind === undefined ? 0 : v.constructor.$gvckind};
   if (v !== null && typeof v === 'object' && '$high' in v) return {t: 'obj', f: {'$high': enc(v.$high), '$low': enc(v.$low)}};
   if (v !== null && typeof v === 'object' && '$array' in v) return {t: 'obj', f: {'$offset': enc(v.$offset), '$length': enc(v.$length), '$capacity': enc(v.$capacity)}};
   return {t: 'other'};
@@ -76,7 +127,56 @@ class JSReplayer:
             return {'t': 'str', 'v': [m.eval(z3.Select(v.arr, v.off + i), model_completion=True).as_long() & 0xFFFF for i in range(n)]}
         if ty in ('i64', 'u64'):
             return {'t': ty, 'h': self.conc_num(m, v.fields['$high']), 'l': self.conc_num(m, v.fields['$low'])}
+        if ty == 'arr':
+            return self.conc_arr(m, v, 0)
+        if ty == 'elemtype':
+            return {'t': 'elemtype', 'kind': self.conc_num(m, v.fields['kind'])}
+        if ty == 'slice':
+            kind = self.conc_num(m, v.fields['$elemtype'].fields['kind'])
+            a = self.conc_arr(m, v.fields['$array'], kind)
+            if kind in (17, 25) and not a['plain']: raise NoReplay('value-kind elements in a typed array')
+            r = {'t': 'slice', 'arr': a, 'kind': kind, 'nil': bool(z3.is_true(m.eval(v.fields['$nil'], model_completion=True)))}
+            for f, k in (('$offset', 'off'), ('$length', 'len'), ('$capacity', 'cap')): r[k] = self.conc_num(m, v.fields[f])
+            if r['nil'] and (r['off'] != 0 or a['v']): raise NoReplay('a nil slice with a non-empty array in the model')
+            return r
         raise NoReplay('parameter type ' + ty)
+
+    def conc_arr(self, m, a, kind):
+        from .jsexec import HEAP
+        n = m.eval(a.length, model_completion=True).as_long()
+        if n > 256: raise NoReplay('array too long')
+        h = self.entry.ghost.get(('jsheap',))
+        if h is None: h = z3.Const('JSHEAP', HEAP)
+        row = z3.Select(h, a.ident)
+        vals = [m.eval(z3.Select(row, i), model_completion=True).as_long() for i in range(n)]
+        plain = bool(z3.is_true(m.eval(a.plain, model_completion=True))) if a.plain is not None else False
+        if kind in (17, 25) and len(set(vals)) != len(vals): raise NoReplay('one element object stored twice')
+        if not plain and any(abs(x) > 2 ** 53 for x in vals): raise NoReplay('element outside the double range')
+        return {'t': 'arrv', 'v': vals, 'plain': plain, 'ident': m.eval(a.ident, model_completion=True).as_long(), 'kind': kind}
+
+    def lift_arr(self, st, enc):
+        """a concrete array in state st: identity, length and contents go into the state's heap"""
+        from .jsexec import HEAP
+        h = st.ghost.get(('jsheap',))
+        if h is None: h = z3.K(I, z3.K(I, z3.IntVal(0)))
+        row = z3.K(I, z3.IntVal(0))
+        for i, x in enumerate(enc['v']): row = z3.Store(row, i, z3.IntVal(x))
+        ident = z3.IntVal(enc['ident'])
+        st.ghost[('jsheap',)] = z3.Store(h, ident, row)
+        if enc.get('fresh'):
+            st.meta['fresh_js'] = set(st.meta.get('fresh_js', set())) | {ident.get_id()}
+        for x, c in zip(enc['v'], enc.get('c') or []):
+            self.elem_facts[x] = c
+        return JSArr(ident, z3.IntVal(len(enc['v'])), 'num', plain=z3.BoolVal(bool(enc['plain'])))
+
+    def lift_st(self, st, enc):
+        t = enc['t'] if isinstance(enc, dict) else None
+        if t in ('arr', 'arrv'): return self.lift_arr(st, enc)
+        if t == 'elemtype': return JSObj({'kind': z3.IntVal(enc['kind'])}, ctor='Type')
+        if t == 'slice':
+            return JSObj({'$array': self.lift_arr(st, enc['arr']), '$offset': z3.IntVal(enc['off']), '$length': z3.IntVal(enc['len']), '$capacity': z3.IntVal(enc['cap']),
+                          '$nil': z3.BoolVal(bool(enc['nil'])), '$elemtype': JSObj({'kind': z3.IntVal(enc['kind'])}, ctor='Type')}, ctor='Slice')
+        return self.lift_in(enc) if t in ('i64', 'u64') else self.lift(enc)
 
     def lift(self, enc):
         ex = self.ex
@@ -105,6 +205,14 @@ class JSReplayer:
 
     def decide(self, e):
         s = z3.Solver(); s.set('timeout', 5000); s.add(z3.Not(e))
+        if getattr(self, 'elem_facts', None) and 'isclone' in self.ex.spec.pures and 'cloneOf' in self.ex.spec.pures:
+            # concrete meaning of isclone / cloneOf: an element object the call created (identity handed out by the harness)
+            # whose content is the content of an input element
+            ic, co = self.ex.pure_decl('isclone'), self.ex.pure_decl('cloneOf')
+            for x, c in self.elem_facts.items():
+                new = x >= 1000000000 and c is not None
+                s.add(ic(z3.IntVal(x)) == z3.BoolVal(bool(new)))
+                if new: s.add(co(z3.IntVal(x)) == z3.IntVal(c))
         r = s.check()
         return True if r == z3.unsat else (False if r == z3.sat else None)
 
@@ -114,12 +222,33 @@ class JSReplayer:
         s.add(ob.hyps)
         if ob.kind == 'proof': s.add(z3.Not(ob.goal))
         import signal
-        signal.alarm(30)          # (replays run in a forked child: a solver call that ignores its timeout ends the child, not the check)
-        r0 = s.check()
-        signal.alarm(0)
+        # small instances first: arrays of at most 6 elements and small numeric parameters, when the failure has such a model
+        small = []
+        for p in self.fn['params']:
+            v, ty = self.entry.env.get(p['name']), self.ptypes.get(p['name'])
+            if ty in ('slice', 'arr'):
+                a = v.fields['$array'] if ty == 'slice' else v
+                small.append(a.length <= 6)
+                if ty == 'slice': small.append(v.fields['$capacity'] <= 6)
+                from .jsexec import HEAP
+                h = self.entry.ghost.get(('jsheap',))
+                if h is None: h = z3.Const('JSHEAP', HEAP)
+                els = [z3.Select(z3.Select(h, a.ident), i) for i in range(6)]
+                small += [z3.Distinct(*els)] + [z3.And(x >= 1, x <= 1000000) for x in els]       # element objects are distinct identities
+            elif ty == 'nat' and isinstance(v, z3.ExprRef) and z3.is_int(v): small.append(v <= 16)
+        r0 = z3.unknown
+        if small:
+            s.push(); s.add(small)
+            signal.alarm(30); r0 = s.check(); signal.alarm(0)
+            if r0 == z3.sat: m = s.model()
+            s.pop()
+        if r0 != z3.sat:
+            signal.alarm(30)          # (replays run in a forked child: a solver call that ignores its timeout ends the child, not the check)
+            r0 = s.check()
+            signal.alarm(0)
+            if r0 == z3.sat: m = s.model()
         if r0 != z3.sat:
             return {'violates': False, 'note': 'in-process solver did not reproduce the model'}
-        m = s.model()
         try:
             args = [self.conc(m, self.entry.env[p['name']], self.ptypes[p['name']]) for p in self.fn['params']]
         except NoReplay as e:
@@ -127,7 +256,7 @@ class JSReplayer:
         with tempfile.TemporaryDirectory(prefix='gvc-jsreplay-') as td:
             hp, sp = os.path.join(td, 'h.js'), os.path.join(td, 'spec.json')
             with open(hp, 'w') as f: f.write(HARNESS % {'files': json.dumps(PRELUDE)})
-            with open(sp, 'w') as f: json.dump({'func': self.name, 'args': args}, f)
+            with open(sp, 'w') as f: json.dump({'func': self.name, 'args': args, 'arrays': any(isinstance(a, dict) and a.get('t') in ('slice', 'arrv') for a in args)}, f)
             p = subprocess.run(['node', hp, os.path.join(REPO, 'compiler', 'prelude'), sp], stdout=subprocess.PIPE, stderr=subprocess.STDOUT, text=True, timeout=60)
         line = [l for l in p.stdout.splitlines() if l.startswith('GVCOUT ')]
         if not line:
@@ -139,8 +268,9 @@ class JSReplayer:
             ex.mode = self.c.get('mode')[0].text.strip() if self.c.get('mode') else 'jn'
             ex.interpret_prod = True      # on concrete values products are real products
             pre = State(); pre.meta['concrete'] = True
+            self.elem_facts = {}
             for pnode, a in zip(self.fn['params'], args):
-                pre.env[pnode['name']] = self.lift_in(a)
+                pre.env[pnode['name']] = self.lift_st(pre, a) if a is not None else UNDEF
             pre.entry = pre
             envpre = SpecEnv(pre, ex.spec_binds(pre), pre)
             for cl in self.c.get('requires'):
@@ -158,8 +288,12 @@ class JSReplayer:
                 res['violated_clauses'].append('unexpected throw: ' + out.get('threw', ''))
             if not threw:
                 post = pre.clone(); post.meta['concrete'] = True
+                post.entry = pre
+                for pnode, a in zip(self.fn['params'], out.get('args_after') or []):
+                    if isinstance(a, dict) and a.get('t') in ('arr', 'slice'):
+                        post.env[pnode['name']] = self.lift_st(post, a)       # (arrays may have been written: the heap after the call)
                 binds = ex.spec_binds(post)
-                binds['result'] = ex.to_spec(post, self.lift(out['result']))
+                binds['result'] = ex.to_spec(post, self.lift_st(post, out['result']))
                 envpost = SpecEnv(post, binds, pre)
                 envpost.binds_old = ex.spec_binds(pre)
                 for cl in self.c.get('ensures'):
